@@ -30,6 +30,11 @@ def main():
             continue
         entry, _, hexs = line.strip().partition(" ")
         data = bytes.fromhex(hexs)
+        traced = entry.startswith("tm:")   # measure the peak of Python-level allocations too (untouched pages never show in RSS)
+        if traced:
+            import tracemalloc
+            entry = entry[3:]
+            tracemalloc.start()
         t0 = time.process_time()
         signal.alarm(90)
         signal.setitimer(signal.ITIMER_PROF, 10.0)
@@ -58,6 +63,9 @@ def main():
             out = "!!" + type(e).__name__
         signal.setitimer(signal.ITIMER_PROF, 0)
         signal.alarm(0)
+        if traced:
+            out += f" tm={tracemalloc.get_traced_memory()[1] // 1024}"
+            tracemalloc.stop()
         rss = resource.getrusage(resource.RUSAGE_SELF).ru_maxrss
         print(f"{out}\t{rss}\t{int((time.process_time() - t0) * 1000)}", flush=True)
 
